@@ -103,6 +103,20 @@ type outcome struct {
 	firstE string
 }
 
+// parseSig: signature component for a parse error; the known \u / \U rejection gets
+// its own narrow class so that no other escape problem can hide behind it.
+func parseSig(d hcl.Diagnostics, st x.Style, src string) string {
+	s := diagSummary(d)
+	if s == "Invalid escape sequence" && st.Esc && (strings.Contains(src, `\u`) || strings.Contains(src, `\U`)) {
+		for _, e := range d {
+			if e.Severity == hcl.DiagError && (strings.Contains(e.Detail, `\u escape`) || strings.Contains(e.Detail, `\U escape`)) {
+				return s + "|unicode-escape"
+			}
+		}
+	}
+	return s
+}
+
 func diagSummary(d hcl.Diagnostics) string {
 	for _, e := range d {
 		if e.Severity == hcl.DiagError {
@@ -129,7 +143,7 @@ func buildCtx(c Case, st x.Style) (*hcl.EvalContext, *core.Violation) {
 		src := x.PrintFuncs(c.Funcs, st)
 		f, diags := hclsyntax.ParseConfig([]byte(src), "funcs.hcl", hcl.InitialPos)
 		if diags.HasErrors() {
-			return nil, core.V("parse|function-block|"+diagSummary(diags), "function definitions do not parse: %s\n%s", diags.Error(), src)
+			return nil, core.V("parse|function-block|"+parseSig(diags, st, src), "function definitions do not parse: %s\n%s", diags.Error(), src)
 		}
 		funcs, _, diags := userfunc.DecodeUserFunctions(f.Body, "function", func() *hcl.EvalContext { return ctx })
 		if diags.HasErrors() {
@@ -165,7 +179,7 @@ func run(c Case, i int, ctx *hcl.EvalContext) (outcome, *core.Violation) {
 		if c.Template && i%2 == 0 {
 			kind = "template"
 		}
-		return o, core.V("parse|"+kind+"|"+diagSummary(pd), "printing %d (%s) of the tree does not parse: %s\nsource:\n%s", i, o.mode, pd.Error(), o.src)
+		return o, core.V("parse|"+kind+"|"+parseSig(pd, st, o.src), "printing %d (%s) of the tree does not parse: %s\nsource:\n%s", i, o.mode, pd.Error(), o.src)
 	}
 	val, vd := expr.Value(ctx)
 	o.val = val
